@@ -1,7 +1,7 @@
 /-
   Proofs/GapInner.lean — a step inside an element node of the kept gap of a replace-around step (C17,
   `commute_succeeds_around_gap`): nested levels found from token windows (`lvl_of_window`), a closed node list cut
-  again where its tokens stand (`slice_window`), the right-hand side behind an exchanged level (`rightRel_after_lvl`),
+  again where its tokens stand (`sliceKids_window`), the right-hand side behind an exchanged level (`rightRel_after_lvl`),
   the guard's decomposition (`insideGap_decomp`), `Slice.insertAt` with the content of an inner node exchanged.
 -/
 import Proofs.CommuteAroundAgain
@@ -13,7 +13,7 @@ namespace PM
 open PM
 
 /-- **a closed list of nodes is cut again where its tokens stand** (generalises `slice_again`) -/
-theorem slice_window (K' G : List Node) (p' : Nat) (hn' : fnorm K' = true) (hG : fnorm G = true)
+theorem sliceKids_window (K' G : List Node) (p' : Nat) (hn' : fnorm K' = true) (hG : fnorm G = true)
     (hq' : p' + fsize G ≤ fsize K')
     (hwin : ((ftoks K').drop p').take (fsize G) = ftoks G)
     (hal : 0 < fsize G → alignedAt K' p' = true ∧ alignedAt K' (p' + fsize G) = true) :
@@ -458,7 +458,7 @@ theorem gap_slice_inner (K Ka : List Node) (gap : Slice) (G' : List Node) (A0 B0
     simp only [List.length_append, ftoks_length] at this
     omega
   rw [← hgt']
-  refine slice_window Ka G' gf hna hG'n (by omega) ?_ (fun _ => ⟨?_, ?_⟩)
+  refine sliceKids_window Ka G' gf hna hG'n (by omega) ?_ (fun _ => ⟨?_, ?_⟩)
   · rw [hGT, hLKa, show fsize G' = gf + fsize G' - gf by omega,
       gap_window A0 W' B0 gf _ hgf (by omega)]
     congr 2; omega
